@@ -75,7 +75,7 @@ GenJobs(s) ==
                                        THEN { <<PathTo(s, i)>> : i \in { g \in 0..s.n : IsFolder(s, g) } } \cup { <<MissingPath>> }
                                        ELSE {} }
 
-EmptySrv == SrvOf([n |-> 0, parent |-> <<>>, kind |-> <<>>], 1, FALSE)
+EmptySrv == SrvOf([n |-> 0, parent |-> <<>>, kind |-> <<>>], 1, FALSE, FALSE)
 
 \* Mode "walk" enumerates the full product; "cases" + "faults" enumerate its two factors (the driver
 \* forms the product: fault f applies at request index k iff k < NReq and (f.at < 0 or k <= f.at))
